@@ -597,6 +597,8 @@ def C17(run):
     for (p, rule, cmd, file), r in zip(items, res):
         if r[0] == 'TIMEOUT':
             continue
+        if any(x.startswith('CRASH Timeout') or x.startswith('CRASH Hang') for x in r):
+            continue        # a count that did not finish in its budget is C01's business
         if r[0] != r[1]:
             nim += 1; nfail += 1
             if nim <= 3:
